@@ -27,7 +27,7 @@ pub fn required_ad_classes() -> Vec<String> {
         }
     }
     for s in [
-        "node:neg:owned", "node:neg:ref", "node:exp", "node:log", "node:norm_cdf", "node:inv_norm_cdf", "node:abs:pos", "node:abs:neg",
+        "node:neg:owned", "node:neg:ref", "node:exp", "node:log", "node:norm_cdf", "node:inv_norm_cdf", "node:abs:pos", "node:abs:neg", "node:abs:tiny-pos", "node:abs:tiny-neg",
         "node:pow:owned:zero", "node:pow:ref:one", "node:pow:owned:posint", "node:pow:ref:negint", "node:pow:owned:real", "node:pow:owned:posint:negbase", "node:pow:owned:posint:zerobase", "node:pow:ref:one:zerobase",
         "node:sum:0", "node:sum:1", "node:sum:5",
     ] {
